@@ -16,17 +16,30 @@ import kani_run
 
 
 def _run(cmd, cwd, env, timeout):
-    proc = subprocess.Popen(cmd, cwd=cwd, env=env, stdout=subprocess.PIPE, stderr=subprocess.STDOUT, text=True, start_new_session=True)
+    import fcntl
+    # same lock as kani_run.run: one cargo-kani per target directory at a time
+    td = env.get("CARGO_TARGET_DIR", kani_run.TARGET)
+    os.makedirs(td, exist_ok=True)
+    lock_fh = open(td + ".lock", "w")
+    fcntl.flock(lock_fh, fcntl.LOCK_EX)
     try:
-        out, _ = proc.communicate(timeout=timeout)
-        return out
-    except subprocess.TimeoutExpired:
+        proc = subprocess.Popen(cmd, cwd=cwd, env=env, stdout=subprocess.PIPE, stderr=subprocess.STDOUT, text=True, start_new_session=True)
         try:
-            os.killpg(proc.pid, signal.SIGKILL)
-        except ProcessLookupError:
+            out, _ = proc.communicate(timeout=timeout)
+            return out
+        except subprocess.TimeoutExpired:
+            try:
+                os.killpg(proc.pid, signal.SIGKILL)
+            except ProcessLookupError:
+                pass
+            proc.communicate()
+            return None
+    finally:
+        try:
+            fcntl.flock(lock_fh, fcntl.LOCK_UN)
+            lock_fh.close()
+        except Exception:
             pass
-        proc.communicate()
-        return None
 
 PLAYBACK_TARGET = os.path.join(kani_run.VERIF, ".cache", "kani-playback-target")
 
